@@ -115,6 +115,7 @@ fn cfg_of(d: &FnDesc) -> Cfg {
         ttl: d.ttl,
         max_memory: d.max_memory,
         fw: d.fw,
+        age_exact: false,
     }
 }
 fn wd_of(d: &FnDesc) -> WrapDesc {
@@ -267,7 +268,7 @@ impl<'a> Hist<'a> {
         match taint {
             Some((slot, cause)) if cap => {
                 let alt = if cause == "expiry-purge" { "C06" } else { "C13" };
-                let what = format!("{} (after {} of slot {} which was not stored again since)", v.what, cause, if slot == u32::MAX { "some".to_string() } else { slot.to_string() });
+                let what = format!("{} (earlier in this history: {} of slot {})", v.what, cause, if slot == u32::MAX { "some".to_string() } else { slot.to_string() });
                 self.rep.violation_tainted(&v.prop, &v.sig, &what, w, alt, cause)
             }
             _ => self.rep.violation(&v.prop, &v.sig, &v.what, w),
@@ -491,7 +492,8 @@ impl<'a> Hist<'a> {
             if dec == StoreDecision::Stored {
                 m.stored_by.insert(slot, actor);
                 m.nostore.remove(&slot);
-                m.taint.retain(|(x, _)| *x != slot);
+                // (the taint is sticky: an invalidation may have disturbed the bookkeeping of
+                // other keys too, which storing this key again does not heal)
             } else {
                 m.nostore.insert(slot, dec);
                 if why == Why::MissExpired {
